@@ -1718,3 +1718,118 @@ Proof.
   apply andb_true_iff in H as [H1 H3]. apply andb_true_iff in H1 as [H1 H2].
   apply negb_true_iff in H1, H2, H3. repeat split; assumption.
 Qed.
+
+(* ================= part H: the pinned statements of Props/C05.v ================= *)
+Lemma schedule_inv_reachable : forall e0 fc bud ops, Forall wf_op ops ->
+  let st := run (init e0 fc bud) ops in
+  forall id mi, miners st !! id = Some mi -> id ∈ claims st ->
+  (m_active mi = true <-> forall k, pdq st id k = ind (k =? dl_last (m_pps mi) (now st))) /\
+  (m_active mi = false -> forall k, pdq st id k = 0).
+Proof.
+  intros e0 fc bud ops Hwf st id mi Hm Hcl.
+  destruct (run_inv ops _ Hwf (inv_init e0 fc bud)) as (_ & _ & _ & HI).
+  destruct (HI id mi Hm) as (H1 & H2 & _). split; [|exact H1]. split; [intros Ha; exact (H2 Ha Hcl)|].
+  intros H. destruct (m_active mi) eqn:Ha; [reflexivity|].
+  specialize (H1 eq_refl (dl_last (m_pps mi) (now (run (init e0 fc bud) ops)))).
+  fold st in H1. rewrite H, Z.eqb_refl in H1. discriminate.
+Qed.
+
+Lemma no_duplicate_reachable : forall e0 fc bud ops id, Forall wf_op ops ->
+  exists E, forall k, pdq (run (init e0 fc bud) ops) id k <= ind (k =? E).
+Proof. intros e0 fc bud ops id Hwf. exact (inv_at_most_one _ id (run_inv ops _ Hwf (inv_init e0 fc bud))). Qed.
+
+Lemma no_event_lost_reachable : forall e0 fc bud ops ti, Forall wf_op ops -> power_ok ti ->
+  let st := run (init e0 fc bud) ops in
+  let st' := fst (fst (step st (Tick ti))) in
+  let log := snd (step st (Tick ti)) in
+  map (fun x => fst x) log =
+    flat_map (fun k => List.filter (has_claim (claims st)) (evs (queue st) k)) (due_epochs (first_cron st) (now st)) /\
+  (forall k, evs (queue st) k <> [] -> first_cron st <= k) /\
+  (forall k, k <= now st -> evs (queue st') k = []) /\
+  (forall k, now st < k -> exists l, evs (queue st') k = evs (queue st) k ++ l) /\
+  first_cron st' = now st + 1 /\ now st' = now st + 1.
+Proof. intros e0 fc bud ops ti Hwf Hok. exact (no_event_lost _ ti (run_inv ops _ Hwf (inv_init e0 fc bud)) Hok). Qed.
+
+(* the proving-deadline callback of an active claim holder is dispatched in the tick of the last epoch of its deadline *)
+Lemma pd_callback_on_time : forall e0 fc bud ops ti id mi, Forall wf_op ops -> power_ok ti ->
+  let st := run (init e0 fc bud) ops in
+  miners st !! id = Some mi -> m_active mi = true -> id ∈ claims st ->
+  (dl_last (m_pps mi) (now st) = now st <-> In (id, PD) (map (fun x => fst x) (snd (step st (Tick ti))))).
+Proof.
+  intros e0 fc bud ops ti id mi Hwf Hok st Hm Ha Hcl.
+  pose proof (run_inv ops _ Hwf (inv_init e0 fc bud)) as HI. fold st in HI.
+  destruct (no_event_lost st ti HI Hok) as (Hlog & Hqd & _). rewrite Hlog.
+  destruct HI as (_ & _ & _ & HIm). destruct (HIm id mi Hm) as (_ & H2 & _). specialize (H2 Ha Hcl).
+  pose proof (dl_bounds (m_pps mi) (now st)) as (_ & _ & Hb & _).
+  rewrite in_flat_map. split.
+  - intros HL. exists (now st). assert (Hin : In (id, PD) (evs (queue st) (now st))).
+    { apply cnt_pos_in. pose proof (H2 (now st)) as HH. unfold pdq in HH. rewrite HH, HL, Z.eqb_refl. cbn. lia. }
+    split.
+    + apply in_due_epochs. split; [|lia]. apply Hqd. eapply in_evs_nonempty; eauto.
+    + apply filter_In. split; [exact Hin|]. unfold has_claim. cbn. apply bool_decide_eq_true. exact Hcl.
+  - intros (k & Hk & Hin). apply in_due_epochs in Hk. apply filter_In in Hin as [Hin _].
+    assert (Hpos : 0 < pdq st id k).
+    { unfold pdq. destruct (Z.eq_dec (cnt (id, PD) (evs (queue st) k)) 0) as [Hz|]; [|pose proof (cnt_nonneg (id, PD) (evs (queue st) k)); lia].
+      exfalso. revert Hin. clear - Hz. induction (evs (queue st) k) as [|y r IH]; [intros []|].
+      cbn [cnt] in Hz. pose proof (cnt_nonneg (id, PD) r). intros [->|Hin].
+      - cbn [fst snd] in Hz. rewrite !Z.eqb_refl in Hz. cbn in Hz. lia.
+      - apply IH; [|exact Hin]. destruct (_ && _); lia. }
+    rewrite H2 in Hpos. destruct (Z.eqb_spec k (dl_last (m_pps mi) (now st))); cbn in Hpos; lia.
+Qed.
+
+Lemma callback_total_partial_flags : forall st id kind ci,
+  is_Some (miners st !! id) -> 0 <= now st ->
+  f_tx ci = false -> f_power ci = false -> f_burn ci = false -> f_pledge ci = false -> f_balance ci = false ->
+  f_enroll ci = false ->
+  is_Some (callback st id kind ci).
+Proof.
+  intros st id kind ci Hm Hn H1 H2 H3 H4 H5 H6. apply callback_total_partial; auto.
+  unfold ci_hard_fail. rewrite H1, H2, H3, H4, H5. reflexivity.
+Qed.
+
+Lemma et_never_stranded_reachable : forall e0 fc bud ops, Forall wf_op ops ->
+  let st := run (init e0 fc bud) ops in
+  forall id mi, miners st !! id = Some mi -> id ∈ claims st -> 0 < m_et mi ->
+  exists k, first_cron st <= k /\ In (id, ET) (evs (queue st) k).
+Proof.
+  intros e0 fc bud ops Hwf st id mi Hm Hcl Hp.
+  pose proof (run_inv ops _ Hwf (inv_init e0 fc bud)) as HI.
+  destruct (run_et_inv ops _ Hwf (inv_init e0 fc bud) (et_inv_init e0 fc bud) id mi Hm Hcl Hp) as [k Hk].
+  exists k. split; [|exact Hk]. destruct HI as (Hqd & _). apply Hqd. eapply in_evs_nonempty; eauto.
+Qed.
+
+Lemma deadline_recorded_reachable : forall e0 fc bud ops ti id mi, Forall wf_op ops -> power_ok ti ->
+  let st := run (init e0 fc bud) ops in
+  miners st !! id = Some mi -> m_active mi = true -> id ∈ claims st ->
+  dl_last (m_pps mi) (now st) = now st ->
+  let st' := fst (fst (step st (Tick ti))) in
+  id ∈ claims st' ->
+  exists mi', miners st' !! id = Some mi' /\ now st' = now st + 1 /\
+    m_dl mi' = dl_index (m_pps mi') (now st') /\
+    (exists k, m_pps mi' = m_pps mi + 2880 * k) /\
+    (m_pps mi = dl_period_start (m_pps mi) (now st) \/ dl_index (m_pps mi) (now st) = 47 ->
+       m_pps mi' = dl_period_start (m_pps mi') (now st')).
+Proof.
+  intros e0 fc bud ops ti id mi Hwf Hok st Hm Ha Hcl HL st' Hcl'.
+  exact (deadline_recorded_after_tick st ti id mi (run_inv ops _ Hwf (inv_init e0 fc bud)) Hok Hm Ha Hcl HL Hcl').
+Qed.
+
+Lemma recorded_stable_reachable : forall e0 fc bud ops o id mi mi', Forall wf_op ops -> wf_op o ->
+  let st := run (init e0 fc bud) ops in
+  miners st !! id = Some mi -> m_active mi = true -> id ∈ claims st -> recorded mi (now st) ->
+  let st' := fst (fst (step st o)) in
+  miners st' !! id = Some mi' -> id ∈ claims st' -> recorded mi' (now st').
+Proof.
+  intros e0 fc bud ops o id mi mi' Hwf Hwo st Hm Ha Hcl HR st' Hm' Hcl'.
+  exact (recorded_stable st o id mi mi' (run_inv ops _ Hwf (inv_init e0 fc bud)) Hwo Hm Ha Hcl HR Hm' Hcl').
+Qed.
+
+Lemma obligations_after_precommit : forall e0 fc bud ops,
+  hist_ok disciplined (init e0 fc bud) ops ->
+  forall id mi, miners (run (init e0 fc bud) ops) !! id = Some mi -> m_pre mi = true ->
+  obl_nz (m_obl mi) = true -> m_active mi = true.
+Proof.
+  intros e0 fc bud ops H id mi Hm Hp Ho.
+  pose proof (run_obl_inv ops _ H (obl_inv_init e0 fc bud) id mi Hm Hp) as HI.
+  destruct (m_active mi); [reflexivity|]. rewrite HI in Ho by reflexivity. discriminate.
+Qed.
